@@ -19,8 +19,8 @@ V_ALL = ['emplace', 'emplace_type', 'conv_assign_move', 'set', 'swap_self', 'mov
 V_COPY = ['conv_assign', 'copy_assign_self', 'assign_own_alt', 'conv_ctor', 'copy_ctor', 'copy_assign']
 X_ALL = ['emplace', 'set', 'value_or_move', 'swap_self', 'move_assign_self', 'default', 'inplace', 'unexpect', 'move_ctor', 'move_assign', 'swap']
 X_COPY = ['value_or', 'copy_assign_self', 'copy_ctor', 'copy_assign']
-UW = {'ll_memset.0': 40, 'll_memcpy.0': 40, 'll_memmove.0': 40, 'll_memmove.1': 40}
-for f_, n_ in (('d_sym_block', 40), ('lg_register', 18), ('lg_expect', 18)):
+UW = {'ll_memset.0': 130, 'll_memcpy.0': 130, 'll_memmove.0': 130, 'll_memmove.1': 130}
+for f_, n_ in (('d_sym_block', 40), ('lg_register', 18), ('lg_expect', 18), ('lg_marks', 70)):
     for i_ in range(4): UW['%s.%d' % (f_, i_)] = n_
 
 
